@@ -642,7 +642,7 @@ pub fn run_c10(ctx: &Ctx, st: &mut Local) {
                     continue;
                 }
                 if i % 4096 == ctx.sel.shard % 4096 {
-                    ctx.begin(name, i, 10_000);
+                    ctx.begin(name, i, 120_000);
                 }
                 if c10_one(ctx, st, name, i, &[Op::Corr(c, v)]) {
                     ok += 1;
@@ -711,7 +711,7 @@ pub fn run_c10(ctx: &Ctx, st: &mut Local) {
                             seq.extend_from_slice(&small[s]);
                         }
                         if nodes % 1024 == 1 {
-                            ctx.begin(name, i, 10_000);
+                            ctx.begin(name, i, 120_000);
                         }
                         if c10_one(ctx, st, name, i, &seq) {
                             ok += 1;
@@ -880,7 +880,7 @@ pub fn run_c10(ctx: &Ctx, st: &mut Local) {
                         seq.extend_from_slice(&small[b]);
                     }
                     if nodes % 64 == 1 {
-                        ctx.begin(name, i, 10_000);
+                        ctx.begin(name, i, 120_000);
                     }
                     if c10_one(ctx, st, name, i, &seq) {
                         ok += 1;
